@@ -32,19 +32,19 @@ const swaggerDoc = `{
   "tok":{"type":"oauth2","flow":"password","tokenUrl":"http://x/t","scopes":{"stc1":"","stc2":""}}},
  "paths":{
   "/a/{id}":{"post":{"operationId":"opA","security":[{"key":["ska"]}],
-    "parameters":[{"name":"id","in":"path","type":"string","required":true},{"name":"n","in":"query","type":"integer","format":"int64"},{"name":"body","in":"body","required":true,"schema":{"type":"object"}}],
+    "parameters":[{"name":"id","in":"path","type":"string","required":true},{"name":"n","in":"query","type":"integer","format":"int64"},{"name":"tags","in":"query","type":"array","items":{"type":"string"},"default":["x","y"]},{"name":"body","in":"body","required":true,"schema":{"type":"object"}}],
     "responses":{"200":{"description":"ok"}}}},
   "/b/{id}":{"post":{"operationId":"opB",
-    "parameters":[{"name":"id","in":"path","type":"string","required":true},{"name":"n","in":"query","type":"integer","format":"int64"},{"name":"body","in":"body","required":true,"schema":{"type":"object"}}],
+    "parameters":[{"name":"id","in":"path","type":"string","required":true},{"name":"n","in":"query","type":"integer","format":"int64"},{"name":"tags","in":"query","type":"array","items":{"type":"string"},"default":["x","y"]},{"name":"body","in":"body","required":true,"schema":{"type":"object"}}],
     "responses":{"200":{"description":"ok"}}}},
   "/d":{"post":{"operationId":"opD","security":[{"key":["skd"]}],
-    "parameters":[{"name":"n","in":"query","type":"integer","format":"int64"},{"name":"body","in":"body","required":true,"schema":{"type":"object"}}],
+    "parameters":[{"name":"n","in":"query","type":"integer","format":"int64"},{"name":"tags","in":"query","type":"array","items":{"type":"string"},"default":["x","y"]},{"name":"body","in":"body","required":true,"schema":{"type":"object"}}],
     "responses":{"200":{"description":"ok"}}}},
   "/e":{"post":{"operationId":"opE",
-    "parameters":[{"name":"n","in":"query","type":"integer","format":"int64"},{"name":"body","in":"body","required":true,"schema":{"type":"object"}}],
+    "parameters":[{"name":"n","in":"query","type":"integer","format":"int64"},{"name":"tags","in":"query","type":"array","items":{"type":"string"},"default":["x","y"]},{"name":"body","in":"body","required":true,"schema":{"type":"object"}}],
     "responses":{"200":{"description":"ok"}}}},
   "/c/{id}":{"get":{"operationId":"opC","security":[{"key":["skc"]},{"tok":["stc1","stc2"]}],
-    "parameters":[{"name":"id","in":"path","type":"string","required":true},{"name":"n","in":"query","type":"integer","format":"int64"}],
+    "parameters":[{"name":"id","in":"path","type":"string","required":true},{"name":"n","in":"query","type":"integer","format":"int64"},{"name":"tags","in":"query","type":"array","items":{"type":"string"},"default":["x","y"]}],
     "responses":{"200":{"description":"ok"}}}}
  }}`
 
@@ -272,6 +272,13 @@ func handler() oruntime.OperationHandler {
 				v = append(v, p.Scheme, p.User)
 				v = append(v, middleware.SecurityScopesFrom(rs.boundReq)...)
 			}
+		}
+		// an array parameter with a default that no request sends: the handler must see the declared default,
+		// whatever earlier handlers did to the slice THEY were given (it is modified in place below)
+		tags, _ := m["tags"].([]string)
+		v = append(v, "t:"+strings.Join(tags, ","))
+		if len(tags) > 0 {
+			tags[0] = "touched-by-" + id + body
 		}
 		emit("handle", v...)
 		if n, ok := m["n"].(int64); ok && n == 13 {
